@@ -192,17 +192,99 @@ def run_driver(requests):
 
 # ---------------------------------------------------------------- implementation side
 
+# Which lines of the anchored ufo2ft files the correspondence run executed (sys.monitoring LINE events, every location reported
+# once per process and then disabled: negligible overhead).  It measures the reach of the generators - the part of the
+# modelled code the tie actually exercises - and goes into the evidence; it never influences a verdict.
+_COV = {"files": None, "seen": set(), "sent": set()}
+
+
+def _cov_files(pid):
+    try:
+        import ufo2ft
+        root = os.path.dirname(os.path.dirname(os.path.dirname(os.path.abspath(ufo2ft.__file__))))
+        for l in open(os.path.join(ROOT, "properties.jsonl")):
+            d = json.loads(l)
+            if d["id"] == pid:
+                return [os.path.join(root, f) for f in d.get("anchors", {}).get("files", []) if f.endswith(".py")]
+    except Exception:
+        pass
+    return []
+
+
+def _cov_start(files):
+    try:
+        mon = sys.monitoring
+        _COV["files"] = set(files)
+        tool = mon.PROFILER_ID
+
+        def on_line(code, line):
+            if code.co_filename in _COV["files"]:
+                _COV["seen"].add((code.co_filename, line))
+            return mon.DISABLE
+
+        mon.use_tool_id(tool, "verif-reach")
+        mon.register_callback(tool, mon.events.LINE, on_line)
+        mon.set_events(tool, mon.events.LINE)
+    except Exception:
+        _COV["files"] = None
+
+
+def _cov_delta():
+    if not _COV["files"]:
+        return []
+    new = _COV["seen"] - _COV["sent"]
+    _COV["sent"] |= new
+    return sorted(new)
+
+
+def _cov_report(files, hit):
+    """per anchored file: function bodies entered / not entered and statement lines hit (ast-based denominators)"""
+    import ast
+    out = {}
+    for f in files:
+        try:
+            tree = ast.parse(open(f).read())
+        except Exception:
+            continue
+        lines = {l for (fn, l) in hit if fn == f}
+        funcs = []
+
+        def walk(node, prefix):
+            for ch in ast.iter_child_nodes(node):
+                if isinstance(ch, (ast.FunctionDef, ast.AsyncFunctionDef)):
+                    body = {n.lineno for st in ch.body for n in ast.walk(st) if isinstance(n, ast.stmt)}
+                    funcs.append((prefix + ch.name, body))
+                    walk(ch, prefix + ch.name + ".")
+                elif isinstance(ch, ast.ClassDef):
+                    walk(ch, prefix + ch.name + ".")
+                else:
+                    walk(ch, prefix)
+        walk(tree, "")
+        entered = [(n, b) for n, b in funcs if b & lines]
+        stmts = set().union(*[b for _, b in funcs]) if funcs else set()
+        out[f[f.index("/Lib/") + 1:] if "/Lib/" in f else f] = {
+            "functions": len(funcs), "functions_entered": len(entered),
+            "functions_not_entered": sorted(n for n, b in funcs if not (b & lines))[:60],
+            "statement_lines_in_functions": len(stmts), "statement_lines_hit": len(stmts & lines),
+            "statement_lines_hit_in_entered_functions_pct": round(100.0 * sum(len(b & lines) for _, b in entered) / max(1, sum(len(b) for _, b in entered)), 1),
+        }
+    return out
+
+
 def _worker(args):
     modname, case = args
     mod = importlib.import_module(modname)
     try:
-        return case, mod.run(json.loads(json.dumps(case))), None
+        return case, mod.run(json.loads(json.dumps(case))), None, _cov_delta()
     except Exception:
-        return case, None, traceback.format_exc()
+        return case, None, traceback.format_exc(), []
 
 
 def canon(x):
     return json.dumps(x, sort_keys=True, separators=(",", ":"))
+
+
+COV_HIT = set()
 
 
 def evaluate(mod, cases, jobs=None):
@@ -216,7 +298,8 @@ def evaluate(mod, cases, jobs=None):
     else:
         rs = [_worker((modname, c)) for c in cases]
     reqs = []
-    for case, out, err in rs:
+    for case, out, err, cov in rs:
+        COV_HIT.update(tuple(x) for x in cov)
         if err is not None:
             raise Infra("harness exception in run():\n" + err)
         for r in out:
@@ -368,6 +451,9 @@ def _run(mod, pid, a, seed, t0):
         return 0
 
     po = proof_obligations(pid, tier, getattr(mod, "PROOF_FILES", None))
+    covfiles = _cov_files(pid)
+    if covfiles and os.environ.get("VERIF_REACH", "1") != "0":
+        _cov_start(covfiles)
     rng = random.Random(f"{seed}-{pid}")
     n = a.n or mod.N[tier]
     # corpus first
@@ -457,6 +543,14 @@ def _run(mod, pid, a, seed, t0):
         "assumptions": getattr(mod, "ASSUMED", []),
         "wall_s": round(time.time() - t0, 2), "violations": viol,
     }
+    try:
+        if covfiles and _COV["files"]:
+            ev["coverage"]["implementation_reach"] = {
+                "what": "lines of the property's anchored ufo2ft files executed in-process by this run's correspondence cases "
+                        "(sys.monitoring; subprocess runs are not counted): how much of the modelled code the tie exercised",
+                "files": _cov_report(covfiles, COV_HIT)}
+    except Exception as e:      # the measurement never influences a verdict
+        ev["coverage"]["implementation_reach"] = {"error": repr(e)}
     if "leanchecker" in po:
         ev["coverage"]["leanchecker"] = po["leanchecker"]
     if po["problems"]:
